@@ -790,6 +790,91 @@ example (x : Fin 2 → ℝ) (l : Fin 2) : ∃ D₁ D₂ : Mat ℝ 2 2,
   obtain ⟨⟨D₂, h₂⟩, -, -⟩ := pk_hyps 0 (Or.inl rfl)
   exact ⟨D₁, D₂, h₁, h₂, designPack_same_signals {} exG pkAz pkEl 1 0 pkOrd pkDeg _ _ 1 false hdeg D₁ D₂ h₁ h₂ hnd x l⟩
 
+section firstOrder
+open Real
+
+noncomputable def foAz : Vector ℝ 6 := #v[0, π / 2, π, -(π / 2), 0, 0]
+noncomputable def foEl : Vector ℝ 6 := #v[0, 0, 0, 0, π / 2, -(π / 2)]
+def foOrd : Vector Nat 4 := #v[0, 1, 1, 1]
+def foDeg : Vector Int 4 := #v[0, -1, 0, 1]
+def foG : Mat ℝ 2 6 := #v[#v[1, 0, 0, 0, 0, 0], #v[0, 1, 0, 0, 0, 0]]
+
+/-- `Y_virt` of the first-order pack on the octahedron, N3D (`design` always builds it with `norm_N3D`) -/
+theorem foY : yVirt foOrd foDeg foAz foEl =
+    #v[#v[1, 1, 1, 1, 1, 1], #v[0, √3, 0, -√3, 0, 0], #v[0, 0, 0, 0, √3, -√3], #v[√3, 0, -√3, 0, 0, 0]] := by
+  apply Vector.ext
+  intro i hi
+  have : i = 0 ∨ i = 1 ∨ i = 2 ∨ i = 3 := by omega
+  rcases this with rfl | rfl | rfl | rfl <;>
+  · apply Vector.ext
+    intro j hj
+    have : j = 0 ∨ j = 1 ∨ j = 2 ∨ j = 3 ∨ j = 4 ∨ j = 5 := by omega
+    rcases this with rfl | rfl | rfl | rfl | rfl | rfl <;>
+      simp [yVirt, Mat.ofFn, sphHarm, normN3D, alegendre, legUp, legDiag, azScale, factSub, fact, foAz, foEl, foOrd, foDeg] <;>
+      norm_num
+
+theorem foY_indep : RowsIndependent (yVirt foOrd foDeg foAz foEl) := by
+  rw [foY]
+  intro a h c
+  have h0 := h 0
+  have h1 := h 1
+  have h2 := h 2
+  have h4 := h 4
+  simp [Fin.sum_univ_four, Mat.at] at h0 h1 h2 h4
+  have h3 : (√3 : ℝ) ≠ 0 := by positivity
+  have a0 : a 0 = 0 := by linarith
+  have a3 : a 3 = 0 := by
+    have : a 3 * √3 = 0 := by linarith
+    simpa [h3] using this
+  have a1 : a 1 = 0 := by
+    have : a 1 * √3 = 0 := by linarith
+    simpa [h3] using this
+  have a2 : a 2 = 0 := by
+    have : a 2 * √3 = 0 := by linarith
+    simpa [h3] using this
+  fin_cases c
+  · exact a0
+  · exact a1
+  · exact a2
+  · exact a3
+
+theorem foDeg_le : ∀ c : Fin 4, foDeg[c.1].natAbs ≤ foOrd[c.1] := by
+  intro c; fin_cases c <;> simp [foDeg, foOrd]
+
+/-- **`NonDegenerate` on a real first-order pack** (beyond the 2×2×2 toys): the pack `W, Y, Z, X` = (0,0), (1,−1), (1,0),
+(1,1) sampled at the six octahedron directions (front, left, back, right, up, down; `sph_harm` evaluated inside the
+model: `foY`), a 2×6 panner matrix, default options, in ANY convention whose norm vector is defined — via
+`nonDegenerate_pack` (rows of `Y_virt` independent: `foY_indep`; `G·Yᵀ/6` has the entry `1/6` at `(0,0)`).  On the
+real data (5200-point t-design, the layouts' `G_virt`) `NonDegenerate` is evidenced by the finiteness search only. -/
+theorem fo_nonDegenerate (conv : Nat) (nrm : Vector ℝ 4) (hn : normVec conv foOrd foDeg = some nrm) :
+    NonDegenerate {} foG (yVirt foOrd foDeg foAz foEl) (n3dVec foOrd foDeg) nrm foOrd (fun _ => 1) := by
+  refine nonDegenerate_pack {} foG foAz foEl conv foOrd foDeg _ nrm hn foDeg_le (by norm_num) foY_indep ⟨0, 0, ?_, ?_⟩ ?_
+  · rw [foY]; simp [d0, Fin.sum_univ_six, Mat.at, foG]
+  · simp [wOpt, wOf]
+  · intro h; simp at h
+
+/-- … for each of N3D (`0`), SN3D (`1`), FuMa (`2`) the norm vector exists and the design is non-degenerate -/
+example (conv : Nat) (hc : conv = 0 ∨ conv = 1 ∨ conv = 2) :
+    ∃ nrm : Vector ℝ 4, normVec conv foOrd foDeg = some nrm ∧
+      NonDegenerate {} foG (yVirt foOrd foDeg foAz foEl) (n3dVec foOrd foDeg) nrm foOrd (fun _ => 1) := by
+  have hdef : (List.finRange 4).all (fun c => normDefined conv foOrd[c.1] foDeg[c.1].natAbs) = true := by
+    rcases hc with rfl | rfl | rfl <;> decide
+  have : ∃ nrm : Vector ℝ 4, normVec conv foOrd foDeg = some nrm := by
+    unfold normVec; rw [if_pos hdef]; exact ⟨_, rfl⟩
+  obtain ⟨nrm, hn⟩ := this
+  exact ⟨nrm, hn, fo_nonDegenerate conv nrm hn⟩
+
+/-- … and with maxRE weights (per-order table `1, 1/2`) and mean-power normalisation -/
+example (conv : Nat) (nrm : Vector ℝ 4) (hn : normVec conv foOrd foDeg = some nrm) :
+    NonDegenerate { maxRE := true, normMeanPower := true } foG (yVirt foOrd foDeg foAz foEl) (n3dVec foOrd foDeg) nrm
+      foOrd (fun n => if n = 0 then 1 else 1 / 2) := by
+  refine nonDegenerate_pack _ foG foAz foEl conv foOrd foDeg _ nrm hn foDeg_le (by norm_num) foY_indep ⟨0, 0, ?_, ?_⟩ ?_
+  · rw [foY]; simp [d0, Fin.sum_univ_six, Mat.at, foG]
+  · simp [wOpt, wOf, maxREWeights, foOrd]
+  · intro _ h; simp at h
+
+end firstOrder
+
 /-- `|degree| > order` (order 1, degree 2 — accepted by every validator of the real code): both factors are `0` -/
 example : (normN3D 1 2 : ℝ) = 0 ∧ (normSN3D 1 2 : ℝ) = 0 ∧ n3dSq 1 2 = (0, 6) :=
   ⟨(norms_zero_of_gt 1 2 (by norm_num)).1, (norms_zero_of_gt 1 2 (by norm_num)).2.1, by decide⟩
